@@ -19,7 +19,14 @@ pub const NSHARDS: usize = 16;
 // The hook's iteration budget turns a stuck *main loop* into a verdict, but a scanner that stops
 // advancing inside one lexer call never returns. Every worker registers the case it is checking;
 // a watchdog thread notices a case that is far beyond any plausible lexing time.
-type Slot = std::sync::Arc<Mutex<Option<(Instant, Case)>>>;
+#[derive(Default)]
+struct SlotState {
+    /// the case being checked and when its check started
+    case: Option<(Instant, Case)>,
+    /// set while a lexer call (`api::lex`) is running on this thread
+    lex_since: Option<Instant>,
+}
+type Slot = std::sync::Arc<Mutex<SlotState>>;
 static SLOTS: Mutex<Vec<Slot>> = Mutex::new(Vec::new());
 thread_local! {
     static MY_SLOT: std::cell::RefCell<Option<Slot>> = const { std::cell::RefCell::new(None) };
@@ -28,7 +35,7 @@ fn my_slot() -> Slot {
     MY_SLOT.with(|c| {
         let mut c = c.borrow_mut();
         if c.is_none() {
-            let s: Slot = std::sync::Arc::new(Mutex::new(None));
+            let s: Slot = std::sync::Arc::new(Mutex::new(SlotState::default()));
             SLOTS.lock().unwrap().push(s.clone());
             *c = Some(s);
         }
@@ -39,39 +46,62 @@ fn slot_enter(case: &Case) {
     // cloning is cheap next to lexing three variants; skip the copy for huge inputs
     // (a thread batch is thousands of lexer calls, not one: it is not timed as a single call)
     if case.kind != "batch" && case.texts.iter().map(|t| t.len()).sum::<usize>() < (1 << 20) {
-        *my_slot().lock().unwrap() = Some((Instant::now(), case.clone()));
+        my_slot().lock().unwrap().case = Some((Instant::now(), case.clone()));
     }
 }
 fn slot_leave() {
-    *my_slot().lock().unwrap() = None;
+    my_slot().lock().unwrap().case = None;
+}
+/// called by `api::lex` around every lexer call: only time spent *inside the lexer* can become a "hang" verdict;
+/// time spent in the harness's own oracles never does
+pub fn lex_enter() {
+    my_slot().lock().unwrap().lex_since = Some(Instant::now());
+}
+pub fn lex_leave() {
+    my_slot().lock().unwrap().lex_since = None;
 }
 /// check a case under the watchdog
 pub fn guarded_check(prop: &dyn Property, case: &Case) -> Verdict {
     slot_enter(case);
+    let t0 = Instant::now();
     let v = prop.check(case);
     slot_leave();
+    if t0.elapsed().as_millis() >= 700 && std::env::var_os("VERIF_SLOW_CASES").is_some() {
+        eprintln!("slow case: {:.1} s, kind {}, {} bytes, starts {:?}", t0.elapsed().as_secs_f64(), case.kind, case.t0().len(), trunc(case.t0(), 40));
+    }
     v
 }
-pub const HANG_SECS: u64 = 20;
+pub const HANG_SECS: u64 = 45;
+/// a whole check (all variants + oracles) that takes this long stops the run as inconclusive
+pub const CHECK_SECS: u64 = 600;
 pub const RSS_LIMIT: u64 = 12 << 30;
 pub fn rss_bytes() -> u64 {
     std::fs::read_to_string("/proc/self/statm").ok().and_then(|s| s.split_whitespace().nth(1).and_then(|x| x.parse::<u64>().ok())).map_or(0, |pages| pages * 4096)
 }
-/// used by `verif replay`: a replayed case must return within 30 s and 4 GiB, else exit 3
+fn longest_lexer_call() -> Option<std::time::Duration> {
+    let g = SLOTS.lock().unwrap();
+    g.iter().filter_map(|s| s.lock().unwrap().lex_since.map(|t| t.elapsed())).max()
+}
+/// used by `verif replay`: a single lexer call of the replayed case must return within 60 s and the process must stay
+/// below 4 GiB, else exit 3; a replay that is slow for any other reason (the harness's own work) ends with exit 4
 pub fn start_replay_guard() {
     std::thread::spawn(|| {
         let t0 = Instant::now();
         loop {
             std::thread::sleep(std::time::Duration::from_millis(100));
-            if t0.elapsed().as_secs() >= 30 || rss_bytes() > (4 << 30) {
-                eprintln!("replay guard: the case did not return within 30 s / 4 GiB");
+            if longest_lexer_call().map_or(false, |d| d.as_secs() >= 60) || rss_bytes() > (4 << 30) {
+                eprintln!("replay guard: a lexer call did not return within 60 s / 4 GiB");
                 std::process::exit(3);
+            }
+            if t0.elapsed().as_secs() >= 900 {
+                eprintln!("replay guard: the replay as a whole took more than 900 s (no single lexer call is stuck)");
+                std::process::exit(4);
             }
         }
     });
 }
 /// Spawn the watchdog. A case that has not returned after HANG_SECS is saved as a replay file.
-/// For C01 the replay is re-run in a fresh process; if it does not return there either (30 s),
+/// For C01 the replay is re-run in a fresh process; if it does not return there either (60 s per lexer call),
 /// that is the violation "never hangs" (the input is a few hundred bytes; normal lexing takes
 /// microseconds). In every other situation the run is inconclusive (exit 2).
 pub fn start_watchdog(prop_id: &'static str, root: PathBuf, seed: u64) {
@@ -80,12 +110,30 @@ pub fn start_watchdog(prop_id: &'static str, root: PathBuf, seed: u64) {
         let mut why = format!("a lexer call did not return within {HANG_SECS} s");
         let mut stuck: Option<Case> = {
             let g = SLOTS.lock().unwrap();
-            g.iter().find_map(|s| s.lock().unwrap().as_ref().filter(|(t, _)| t.elapsed().as_secs() >= HANG_SECS).map(|(_, c)| c.clone()))
+            let mut found = None;
+            for s in g.iter() {
+                let st = s.lock().unwrap();
+                if st.lex_since.map_or(false, |t| t.elapsed().as_secs() >= HANG_SECS) {
+                    match &st.case {
+                        Some((_, c)) => found = Some(c.clone()),
+                        None => {
+                            eprintln!("INCONCLUSIVE: a lexer call on an input of more than 1 MiB did not return within {HANG_SECS} s");
+                            std::process::exit(2);
+                        }
+                    }
+                    break;
+                }
+                if st.case.as_ref().map_or(false, |(t, _)| t.elapsed().as_secs() >= CHECK_SECS) {
+                    eprintln!("INCONCLUSIVE: one case took more than {CHECK_SECS} s in total although no single lexer call is stuck (the harness's own work is too slow on it)");
+                    std::process::exit(2);
+                }
+            }
+            found
         };
         if stuck.is_none() && rss_bytes() > RSS_LIMIT {
-            // unbounded allocation: blame the case that has been running longest
+            // unbounded allocation: blame the case whose lexer call has been running longest
             let g = SLOTS.lock().unwrap();
-            stuck = g.iter().filter_map(|s| s.lock().unwrap().clone()).min_by_key(|(t, _)| *t).map(|(_, c)| c);
+            stuck = g.iter().filter_map(|s| { let st = s.lock().unwrap(); match (&st.lex_since, &st.case) { (Some(t), Some((_, c))) => Some((*t, c.clone())), _ => None } }).min_by_key(|(t, _)| *t).map(|(_, c)| c);
             why = format!("the process grew beyond {} GiB while a lexer call was running (unbounded allocation)", RSS_LIMIT >> 30);
             if stuck.is_none() {
                 eprintln!("INCONCLUSIVE: memory guard hit ({why}) with no case in flight");
@@ -112,9 +160,10 @@ pub fn start_watchdog(prop_id: &'static str, root: PathBuf, seed: u64) {
                             eprintln!("INCONCLUSIVE: the case returned when replayed in a fresh process");
                             std::process::exit(2);
                         }
-                        Ok(None) if t0.elapsed().as_secs() >= 40 => {
+                        Ok(None) if t0.elapsed().as_secs() >= 1000 => {
                             let _ = child.kill();
-                            true
+                            eprintln!("INCONCLUSIVE: the fresh-process replay neither finished nor reported a stuck lexer call");
+                            std::process::exit(2);
                         }
                         Ok(None) => false,
                         Err(_) => std::process::exit(2),
@@ -123,7 +172,7 @@ pub fn start_watchdog(prop_id: &'static str, root: PathBuf, seed: u64) {
                         true => {
                             let ev = json!({"property_id": "C01", "tier": "quick", "seed": seed, "level": "exploration", "coverage": {"evaluations": 1, "distinct_nontrivial": 2, "rule": "run stopped by the watchdog: a lexer call never returned (reproduced in a fresh process)", "samples": [case.texts.first().cloned().unwrap_or_default()]}, "wall_s": HANG_SECS as f64 + 30.0, "violations": 1});
                             let _ = std::fs::write(root.join("evidence").join("C01.json"), serde_json::to_string_pretty(&ev).unwrap());
-                            println!("  rule hang [watchdog]: {why}; replayed in a fresh process it again did not return within 30 s / 4 GiB; input {:?}", trunc(case.t0(), 200));
+                            println!("  rule hang [watchdog]: {why}; replayed in a fresh process a lexer call again did not return within 60 s / 4 GiB; input {:?}", trunc(case.t0(), 200));
                             println!("VIOLATION property=C01 replay={}", p.display());
                             std::process::exit(1);
                         }
